@@ -446,4 +446,30 @@ theorem call_eq (col : Collection) (route : Bytes) (ctx : CtxArg) (arg : ArgV) (
       simp only [Option.bind_some, callMethod]
       cases lookup c.handlers m <;> rfl
 
+/-- on a built collection `CallWithSerialize` never reaches `argType.Elem()` with a non-pointer -/
+theorem callWithSerialize_build (f : Bool) (es : List Entry) (ser : Option Decoder) (route data : Bytes)
+    (ctx : CtxArg) (hasCb : Bool) :
+    callWithSerialize (build f es) ser route ctx data hasCb =
+      match ser with
+      | none => .fwErr
+      | some dec =>
+        match getHandler (build f es) route with
+        | none => .fwErr
+        | some h =>
+          match dec h.argT.id data with
+          | none => .fwErr
+          | some v => call (build f es) route ctx (.val h.argT.id v) hasCb := by
+  unfold callWithSerialize getArgType
+  cases ser with
+  | none => rfl
+  | some dec =>
+    simp only []
+    cases hh : getHandler (build f es) route with
+    | none => rfl
+    | some h =>
+      obtain ⟨_, _, e, x, _, _, _, hv, _, hx⟩ := getHandler_build hh
+      have hptr : h.argT.kind = .ptr := by rw [hx]; exact (valid_argT_ptr e.eid hv).1
+      simp only [Option.map_some, hptr, bne_self_eq_false, Bool.false_eq_true, if_false]
+      cases dec h.argT.id data <;> rfl
+
 end Cell2v.ApiMap
